@@ -1,5 +1,5 @@
 """C10 - Only authentic revocation updates are accepted (RevAuth.tla)."""
-import os, json, vplib
+import os, json, vplib, memostage
 
 def run(chk):
     T = chk.tier
@@ -67,13 +67,19 @@ def run(chk):
     ap = os.path.join(vplib.sub("c10"), "api.ndjson")
     open(ap, "w").write("\n".join(scen) + "\n")
     res = vplib.vh("rev", ["api", "--in", ap, "--tier", T, "--seed", str(chk.seed)], timeout=600)
-    if res["evaluations"] != len(scen):
-        raise vplib.Machinery("api replay: %d of %d" % (res["evaluations"], len(scen)))
+    nrev = sum(1 for x in scen if '"call":"prove"' not in x)
+    if res["evaluations"] != nrev:
+        raise vplib.Machinery("api replay: %d of %d" % (res["evaluations"], nrev))
     chk.add_replay(res, "object_life_cycle")
+    # the SignedAccumulator object under everything a program does to it between two uses (SaccMemo.tla)
+    memostage.run(chk, vplib.sub("c10"))
 
 def replay(chk, path):
     v = json.load(open(path))
     d = vplib.sub("c10")
+    rc = memostage.replay(chk, v, path, d)
+    if rc is not None:
+        return rc
     cp = os.path.join(d, "one.ndjson")
     open(cp, "w").write(json.dumps(v["case"]) + "\n")
     res = vplib.vh("rev", ["auth", "--in", cp, "--seed", str(chk.seed)])
